@@ -265,8 +265,12 @@ Definition is_x_header (n : string) : bool := prefix "X-" n.
 
 Definition nonempty (kv : string * string) : bool := negb (String.eqb (snd kv) "").
 
-Definition fwd (names : list string) (m : alist) : alist :=
-  filter nonempty (map (fun n => (n, or_default "" (lookup n m))) names).
+(** the configured names with the values the request has for them ("" if absent) *)
+Definition fwd_pairs (names : list string) (m : alist) : alist :=
+  map (fun n => (n, or_default "" (lookup n m))) names.
+
+(** what is forwarded: the names with a non-empty value *)
+Definition fwd (names : list string) (m : alist) : alist := filter nonempty (fwd_pairs names m).
 
 (** http.Header.Set: replace an existing entry of that name, else append *)
 Fixpoint hset (k v : string) (m : alist) : alist :=
@@ -459,12 +463,17 @@ Definition exec_fresh (w : world) (i : inst) (q : reqdata) : outcome * nat :=
 (** candidate repairs of three findings (fixes/C11-F1.diff … F3.diff); [false] = the code of the tree as it is:
     [fx1] maps are hashed in the order of their keys, [fx2] a cached introspection response is validated
     under the assertions in force, [fx3] the remote authorizer verifies its expressions on a hit,
-    [fx10] the generic authenticator asserts the session lifespan of a cached response (fixes/C11-F10.diff) *)
-Record fixes := { fx1 : bool; fx2 : bool; fx3 : bool; fx10 : bool }.
-Definition fx_none : fixes := {| fx1 := false; fx2 := false; fx3 := false; fx10 := false |}.
-Definition fx_all : fixes := {| fx1 := true; fx2 := true; fx3 := true; fx10 := true |}.
-(** the tree as it is: F1, F2, F3 repaired, F10 open *)
-Definition fx_now : fixes := {| fx1 := true; fx2 := true; fx3 := true; fx10 := false |}.
+    [fx10] the generic authenticator asserts the session lifespan of a cached response (fixes/C11-F10.diff),
+    [fx6] the keys of the generic contextualizer and the generic authenticator cover the forwarded headers
+    and cookies with their values, the authenticator's also its payload template (fixes/C11-F6.diff) *)
+Record fixes := { fx1 : bool; fx2 : bool; fx3 : bool; fx10 : bool; fx6 : bool }.
+Definition fx_none : fixes := {| fx1 := false; fx2 := false; fx3 := false; fx10 := false; fx6 := false |}.
+(** the repairs committed so far (F1, F2, F3, F10) *)
+Definition fx_all : fixes := {| fx1 := true; fx2 := true; fx3 := true; fx10 := true; fx6 := false |}.
+(** … and with fixes/C11-F6.diff *)
+Definition fx_all6 : fixes := {| fx1 := true; fx2 := true; fx3 := true; fx10 := true; fx6 := true |}.
+(** F1, F2, F3 repaired, F10 open *)
+Definition fx_now : fixes := {| fx1 := true; fx2 := true; fx3 := true; fx10 := false; fx6 := false |}.
 
 Section Keys.
   Variable fx : fixes.
@@ -499,7 +508,7 @@ Section Keys.
   Definition sub_hash (q : reqdata) : string := digest [FV (q_sub_json q)].
 
   (** the writes of calculateCacheKey, [None] when rendering fails before the key is computed *)
-  Definition key_fields (ho vo : list string) (i : inst) (q : reqdata) : option (list fld) :=
+  Definition key_fields0 (ho vo : list string) (i : inst) (q : reqdata) : option (list fld) :=
     match i_kind i with
     | KIntro => Some [FX (ep_hash ho (eff_ep i)); FV (tpl_text (e_url (i_ep i))); FV (q_cred q); FX (ttl_hash (i_ttl i))]
     | KGen => Some [FX (ep_hash ho (eff_ep i)); FV (q_cred q); FX (ttl_hash (Some (ttl_val i)))]
@@ -518,6 +527,25 @@ Section Keys.
                FV payload; FX (le64 (ttl_val i)); FX (sub_hash q)] ++ kv_fields (order_by (hash_order vo vals) vals))
       end
     end.
+
+  (** forwardedHash: the names and the values the request has for them, one digest for the headers, one for the cookies *)
+  Definition fwd_fields (i : inst) (q : reqdata) : list fld :=
+    [FX (digest (kv_fields (fwd_pairs (i_fwdh i) (q_headers q))));
+     FX (digest (kv_fields (fwd_pairs (i_fwdc i) (q_cookies q))))].
+
+  (** what fixes/C11-F6.diff appends to the two keys: the forwarded headers and cookies; the generic
+      authenticator's payload template (template.Hash = the digest of its text) if there is one *)
+  Definition extra_fields (i : inst) (q : reqdata) : list fld :=
+    if fx6 fx then
+      match i_kind i with
+      | KCtx => fwd_fields i q
+      | KGen => fwd_fields i q ++ match i_payload i with Some t => [FX (digest [FV (tpl_text t)])] | None => [] end
+      | _ => []
+      end
+    else [].
+
+  Definition key_fields (ho vo : list string) (i : inst) (q : reqdata) : option (list fld) :=
+    option_map (fun f => f ++ extra_fields i q) (key_fields0 ho vo i q).
 
   Definition cache_key (ho vo : list string) (i : inst) (q : reqdata) : option string :=
     if enabled i then option_map (fun f => hex (digest f)) (key_fields ho vo i q) else None.
